@@ -25,9 +25,11 @@ def bounds(tier):
     if tier == "quick":
         return {"dense": "values 0..5, 1..7 items, 1..6 bins (cg: all 48 configs; dp/ckk within cost bounds)",
                 "wide": "values 1..10, exactly 7 items, k=4..5 for ckk/snp/rnp/cg(default switches)",
+                "nine": "values 1..5, exactly 9 items, k=4..5 for rnp/snp (smallest scope on which rnp's even-case defect showed)",
                 "ilp": "values 0..4, 1..5 items, 1..4 bins, 3 objectives + k-sums objectives"}
     return {"dense": "values 0..7, 1..8 items, 1..6 bins",
             "wide": "values 1..10 (7 items), fibonacci/near-equal/powers-of-two alphabets (6..8 items), k=2..5",
+            "nine": "values 1..5, 9..10 items, k=4..5 for rnp/snp",
             "ilp": "values 0..5, 1..6 items, 1..4 bins + spread alphabet {7,19,53,101,199} 1..4 items"}
 
 
@@ -48,6 +50,9 @@ def tasks(tier):
         for name in ("fib", "near", "pow2"):
             for ch in scopes.chunk_multisets(WIDE[name], 6, 8, 60):
                 ts.append((f"{name}-exact", ch, (2, 3, 4, 5), tier))
+    for n in ((9,) if q else (9, 10)):
+        for ch in scopes.chunk_multisets(range(1, 6), n, n, 40):
+            ts.append(("nine-rnp", ch, (4, 5), tier))
     Vi, Ni, Ki = (4, 5, 4) if q else (5, 6, 4)
     for ch in scopes.chunk_multisets(range(0, Vi + 1), 1, Ni, 6 if q else 8):
         ts.append(("ilp", ch, tuple(range(1, Ki + 1)), tier))
@@ -92,7 +97,10 @@ def run_task(task):
             opt = O.opt_partition(tuple(ms), k)
             lpt = O.lpt_sums(ms, k)
             acc.point(nontrivial=(max(lpt) - min(lpt) != opt["diff"]))
-            if kind == "exact":
+            if kind == "rnp":
+                for a in (("rnp",) if tier == "quick" else ("rnp", "snp")):
+                    _judge(acc, {"algo": a, "items": list(ms), "k": k, "out": "Sums", "kw": {}}, "MinimizeDifference")
+            elif kind == "exact":
                 algos = []
                 if k <= 5: algos.append("ckk")
                 algos += ["snp", "rnp"]
@@ -101,7 +109,7 @@ def run_task(task):
                 if k ** n <= (4100 if tier == "quick" else 20000):
                     for spec in scopes.all_objectives(k):
                         _judge(acc, {"algo": "dp", "items": list(ms), "k": k, "out": "Sums", "kw": {"objective": spec}}, spec)
-                if scope.startswith("wide") or scope.split("-")[0] in ("fib", "near", "pow2"):
+                if (scope.startswith("wide") and tier != "quick") or scope.split("-")[0] in ("fib", "near", "pow2"):
                     for spec in scopes.CG_OBJECTIVES:
                         _judge(acc, {"algo": "cg", "items": list(ms), "k": k, "out": "Sums", "kw": {"objective": spec}}, spec)
             elif kind == "cg":
